@@ -307,7 +307,7 @@ class Tap:
             f = builtins.open(file, mode, *a, **kw)
             kind = tap.watched.get(str(Path(file))) if isinstance(file, (str, Path)) else None
             sess = tap._cur.get(threading.get_ident())
-            if kind is not None and sess is not None and "+" in mode:
+            if kind is not None and sess is not None and ("+" in mode or "a" in mode):
                 return _FileProxy(f, kind, sess)
             return f
 
@@ -416,8 +416,12 @@ def observe(binf, outdir, scn, nproc, backend, append=False, nbatch=None, ns2add
         return res
     res["wall"] = time.time() - t0
     res["raw"] = np.fromfile(outf, dtype=np.uint8)
-    res["size"] = {k: Path(p).stat().st_size for p, k in watched.items() if k != "sat"}
+    res["size"] = {k: (Path(p).stat().st_size if Path(p).exists() else -1) for p, k in watched.items() if k != "sat"}
     if scn.get("compute_rms") is False:
+        fsat = outdir / "_iblqc_ephysSaturation.samples.npy"
+        res["sat"] = np.load(fsat) if fsat.exists() else None
+        res["rms_files"] = sorted(f.name for f in outdir.iterdir()
+                                  if f.name.startswith(("ap_rms", "ap_time", "_iblqc_ephysTimeRmsAP")))
         return res
     res["sat"] = np.load(outdir / "_iblqc_ephysSaturation.samples.npy")
     res["rms"] = np.load(outdir / "_iblqc_ephysTimeRmsAP.rms.npy")
@@ -906,9 +910,10 @@ def short_stream(ctx, stats):
 
 
 def no_rms_run(ctx, stats):
-    """compute_rms=False (a documented switch): the output must equal the compute_rms=True output.
-    On the current tree the call raises NameError (known finding F-C06-d)."""
-    scn = {"ns": 5000, "nbatch": 3000, "ncv": 8, "ns2add": 0, "reject": False, "k_filter": False, "wrot": None,
+    """compute_rms=False (a documented switch), an ordinary case: same output bytes as with
+    compute_rms=True, the saturation vector is still produced (same assignments, file = last-writer
+    replay), the rms files are not."""
+    scn = {"ns": 5000, "nbatch": 3000, "ncv": 8, "ns2add": 3, "reject": False, "k_filter": False, "wrot": None,
            "nc_out": None, "dtype": "int16", "sat": True, "seed": 77, "append": None}
     tmp = common.tmpdir("C06_run_")
     try:
@@ -920,12 +925,40 @@ def no_rms_run(ctx, stats):
     stats["runs"] += 2
     inp = dict(scn, P=2, compute_rms=False)
     tags = {"compute_rms": False, "ncv": 8}
+
+    def fail(what, **kw):
+        ctx.fail(what, inp, dict(tags, clause=what.split(":")[0], **kw))
+
     if "error" in b:
-        ctx.fail("exception: compute_rms=False: decompress_destripe_cbin raised %s" % b["error"][:160], inp,
-                 dict(tags, clause="exception", error=b["error"].split(":")[0]))
-    elif "error" in a or not np.array_equal(a["raw"], b["raw"]):
-        ctx.fail("workers: compute_rms=False output differs from the compute_rms=True output", inp,
-                 dict(tags, clause="norms"))
+        fail("exception: compute_rms=False: decompress_destripe_cbin raised %s" % b["error"][:160],
+             error=b["error"].split(":")[0])
+        return
+    if "error" in a:
+        fail("exception: decompress_destripe_cbin raised %s" % a["error"][:160])
+        return
+    if not np.array_equal(a["raw"], b["raw"]):
+        fail("workers: compute_rms=False output differs from the compute_rms=True output")
+    if b["rms_files"]:
+        fail("qc: compute_rms=False left rms files behind: %s" % b["rms_files"])
+    if b["sat"] is None or b["sat"].shape != (scn["ns"],):
+        fail("qc: compute_rms=False: saturation vector missing or of the wrong length")
+    else:
+        va = {bt["first"]: bt["sat"][3] for w in a["workers"] for bt in w["batches"] if bt.get("sat") is not None}
+        ops = sorted((bt["sat"] for w in b["workers"] for bt in w["batches"] if bt.get("sat") is not None),
+                     key=lambda o: o[2])
+        last = np.zeros(scn["ns"], dtype=bool)
+        same = len(ops) == sum(len(w["batches"]) for w in b["workers"])
+        for a0, b0, _, vals in ops:
+            same = same and vals is not None and a0 in va and np.array_equal(vals, va[a0])
+            if vals is not None and vals.shape == (b0 - a0,):
+                last[a0:b0] = vals
+        if not same or not np.array_equal(last, b["sat"]):
+            fail("qc: compute_rms=False: saturation assignments differ from the compute_rms=True run")
+    def io_of(o):
+        return sorted([(bt["first"], bt["last"], bt.get("out")) for bt in w["batches"]] for w in o["workers"])
+
+    if io_of(a) != io_of(b):
+        ctx.disagree("compute_rms=False changes the workers' reads / writes of the output file", inp, tags)
 
 
 def numpy_sync_sweep(ctx):
